@@ -14,22 +14,34 @@ open Upnp Upnp.C01
 def firesSearch (cfg : Cfg) (h : Hdrs) : Bool :=
   match searchClassify cfg.targetHost h with | .ok b => b | .error _ => false
 
-/-- Is this datagram, from this sender, a well-formed message for the endpoint?
-    gate ∧ decodable ∧ the endpoint's own validity test (and, for the responder, a matching target). -/
-def wellFormed (cfg : Cfg) (ep : Endpoint) (data : Bytes) (loc : Option Addr) (src : Addr) (now : Int) : Bool :=
+/-- what a well-formed message makes the endpoint do -/
+inductive Dispatch
+  | notify                 -- the user callback of a plain listener fires
+  | see (udn : Bytes)      -- the tracker records / refreshes this device
+  | unsee (udn : Bytes)    -- the tracker forgets this device
+  | respond                -- the responder answers (now or deferred)
+deriving DecidableEq, Repr
+
+/-- Is this datagram, from this sender, a well-formed message for the endpoint, and what does it ask for?
+    gate ∧ decodable ∧ the endpoint's own validity test (a uuid USN for the tracker, a matching target
+    for the responder).  `none` = the datagram is to be dropped. -/
+def classify (cfg : Cfg) (ep : Endpoint) (data : Bytes) (loc : Option Addr) (src : Addr) (now : Int) : Option Dispatch :=
   match protocolRecv Fixes.all cfg.prefixes data loc src now with
   | .ok (some (rl, h)) =>
     (match ep with
-     | .adv => (advClassify h).isSome
-     | .search => firesSearch cfg h
+     | .adv => if (advClassify h).isSome then some .notify else none
+     | .search => if firesSearch cfg h then some .notify else none
      | .listenerAdv =>
        (match advClassify h with
-        | some .byebye => validByebye h && (usnUdn h).isSome
-        | some _ => validAdv h && (usnUdn h).isSome
-        | none => false)
-     | .listenerSearch => firesSearch cfg h && validSearch h && (usnUdn h).isSome
-     | .responder => isSearch rl h && responseCount cfg h != 0)
-  | _ => false
+        | some .byebye => if validByebye h then (usnUdn h).map .unsee else none
+        | some _ => if validAdv h then (usnUdn h).map .see else none
+        | none => none)
+     | .listenerSearch => if firesSearch cfg h && validSearch h then (usnUdn h).map .see else none
+     | .responder => if isSearch rl h && responseCount cfg h != 0 then some .respond else none)
+  | _ => none
+
+def wellFormed (cfg : Cfg) (ep : Endpoint) (data : Bytes) (loc : Option Addr) (src : Addr) (now : Int) : Bool :=
+  (classify cfg ep data loc src now).isSome
 
 /-- what is observed of the implementation handling one datagram -/
 structure Obs where
@@ -44,8 +56,17 @@ deriving DecidableEq, Repr
 def Obs.inert (o : Obs) : Bool :=
   o.callbacks == 0 && o.sends == 0 && o.timers == 0 && o.devsBefore == o.devsAfter
 
-/-- the property, for one datagram: nothing raised, and a dropped datagram is inert -/
-def ok (wf : Bool) (o : Obs) : Bool := o.raised.isNone && (wf || o.inert)
+/-- a well-formed message is dispatched: the least every such message must visibly cause -/
+def Obs.dispatched (o : Obs) : Dispatch → Bool
+  | .notify => o.callbacks ≥ 1
+  | .see u => o.devsAfter.contains u
+  | .unsee u => !o.devsAfter.contains u
+  | .respond => o.sends + o.timers ≥ 1
+
+/-- the property, for one datagram: nothing raised; a well-formed message is dispatched, anything
+    else is dropped, and a dropped datagram is inert -/
+def ok (c : Option Dispatch) (o : Obs) : Bool :=
+  o.raised.isNone && (match c with | none => o.inert | some d => o.dispatched d)
 
 /-- the model's outcome rendered as an observation (used for the correspondence and in the theorems) -/
 def obsOf (before : Tracker) (r : Except Exn (Tracker × Eff)) (sortKeys : List Bytes → List Bytes) : Option Obs :=
